@@ -59,6 +59,12 @@ def id_spans(ctx):
         # non-ASCII comments and CRLF in the gaps shift byte offsets away from character offsets
         texts.append(respell(rng, lex, {'trivia', 'id'}) if i % 2 else refgrammar.spell(lex))
     for name, t in gen_text.fixture_texts(): texts.append(t)
+    # every keyword of the language in the places of a name (variable, invocation argument, type, POU): where the parser
+    # takes it for a name, the name carries its span like any other
+    for kw in sorted({l for (v, l, ic) in gen_text.token_literals() if l[0].isalpha()}):
+        texts.append(f'FUNCTION_BLOCK fb1\nVAR_INPUT\n  {kw} : BOOL;\nEND_VAR\nVAR\n  v1 : BOOL;\nEND_VAR\nv1 := {kw};\nEND_FUNCTION_BLOCK\n'
+                     f'PROGRAM p1\nVAR\n  i1 : fb1;\n  b1 : BOOL;\nEND_VAR\ni1({kw} := b1);\nEND_PROGRAM\n')
+        texts.append(f'PROGRAM p2\nVAR CONSTANT\n  {kw} : BOOL;\nEND_VAR\nEND_PROGRAM\n')
     out = core.run_lines(core.VH, ['ids ' + core.hexs(t) for t in texts], jobs=12)
     for t, o in zip(texts, out):
         ctx.evaluations += 1
